@@ -862,6 +862,16 @@ class Exec(Engine):
         p.frames[-1]["__nonlocal__"] = set(p.frames[-1]["__nonlocal__"]) | set(st.names)
         yield None, p
 
+    def st_ImportFrom(s, st, p):
+        """function-level import: the imported names become opaque module/objects (attributes and isinstance classes on them are uninterpreted)"""
+        for a in st.names:
+            nm = a.asname or a.name.split(".")[0]
+            p.bind(nm, SObj(z3.Const(f"module_{nm}", Obj)))
+        s.abstracted.add("function-level import (imported names are opaque objects)")
+        yield None, p
+
+    st_Import = st_ImportFrom
+
     def st_Pass(s, st, p):
         yield None, p
 
